@@ -139,6 +139,7 @@ def stepC11 (d : DSt) (op : String) (got : String) : StepResult DSt :=
           let (exp, dead) : Option String × Option String := match r.2.2 with
             | .more => (some base, none)
             | .tooMuch => (some (base ++ " ret=err"), some "err")
+            | .tooBig => (some (base ++ " ret=err"), some "err")
             | _ => (none, some "?")
           { st := { dS with stream := d.stream.drop k, st := r.1, dead := dead }, expected := exp,
             spec := crash ++ fails, cov := cov, nontrivial := nt }
